@@ -108,12 +108,21 @@ def kit():
         errors = {DeclaredA: b"DECL_A", DeclaredB: b"DECL_B"}
         fatalErrors = {FatalE: b"FATAL"}
 
-    class Other(amp.Command):
+    class _OtherOnlyFatal(Exception):
+        pass
+
+    class _OtherBase(amp.Command):
+        # round 4 (C31-7): Other INHERITS its FatalE declaration from a base Command and
+        # declares a further fatal error of its own (Command error tables accumulate
+        # along the class hierarchy: _CommandMeta / accumulateClassDict)
+        fatalErrors = {FatalE: b"FATAL"}
+
+    class Other(_OtherBase):
         commandName = b"other"
         arguments = [(b"id", amp.Integer()), (b"pad", amp.String())]
         response = [(b"val", amp.Unicode())]
         errors = {DeclaredA: b"OTHER_A", DeclaredB: b"DECL_B"}
-        fatalErrors = {FatalE: b"FATAL"}
+        fatalErrors = {_OtherOnlyFatal: b"FATAL_OTHER"}
 
     class Quiet(amp.Command):
         commandName = b"quiet"
